@@ -26,9 +26,7 @@ CONSTANTS
   BurstN,       \* transactions per burst (0: no bursts)
   BurstLen,     \* their payload size
   MaxSingles,   \* single transactions per slice
-  MaxSlices,    \* slices 0..MaxSlices-1 carry state
-  EnvFromIdx    \* transactions and ParentReady only while the slice index is >= EnvFromIdx (0: always);
-                \* > 0 only in the configuration that walks up to the real SliceIndex::MAX
+  MaxSlices     \* slices 0..MaxSlices-1 carry state
 
 VARIABLES p, act, out, nS, bu, sid
 
@@ -74,16 +72,16 @@ Next ==
  /\
   \/ /\ p.phase = "idle"
      /\ \E v \in Variants : Step([op |-> "start", v |-> v, b |-> Opt], OnStart(p, v, Opt), 0, FALSE)
-  \/ /\ p.phase = "collect" /\ nS < MaxSingles /\ p.idx >= EnvFromIdx
+  \/ /\ p.phase = "collect" /\ nS < MaxSingles
      /\ \E len \in TxSizes \cup OverSizes :
           LET r == OnTx(p, len) IN Step(Ctx([op |-> "tx", len |-> len, acc |-> r.out.acc]), r, nS + 1, bu)
-  \/ /\ p.phase = "collect" /\ BurstN > 0 /\ ~bu /\ nS = 0 /\ p.cnt = 0 /\ p.idx >= EnvFromIdx
+  \/ /\ p.phase = "collect" /\ BurstN > 0 /\ ~bu /\ nS = 0 /\ p.cnt = 0
      /\ p.buf + BurstN * TxCost(BurstLen) + MaxTx + TxOverhead <= Space(p.par, p.rsv)   \* the burst does not fill the slice
      /\ Step(Ctx([op |-> "burst", len |-> BurstLen, n |-> BurstN, acc |-> BurstN]),
              R(BurstStep(p, BurstN), [NoOut EXCEPT !.acc = BurstN]), nS, TRUE)
   \/ /\ p.phase \in {"collect", "await"}
      /\ Step(Ctx([op |-> "tick"]), OnTick(p), nS, bu)
-  \/ /\ p.phase \in {"collect", "await"} /\ p.variant = "notready" /\ p.pr = Unseen /\ p.idx >= EnvFromIdx
+  \/ /\ p.phase \in {"collect", "await"} /\ p.variant = "notready" /\ p.pr = Unseen
      /\ \E b \in Parents : Step(Ctx([op |-> "pr", b |-> b]), OnParentReady(p, b), nS, bu)
 
 ---------------------------------------------------------------------------
